@@ -3,9 +3,9 @@
    [PSD n A] is the quadratic-form definition: forall x, 0 <= sum_{i,j<n} x_i A_ij x_j, over any
    ordered field [OrdFld] (instances: the reals [ROrd], the executable rationals [QcOrd]). *)
 From Coq Require Import Arith List ZArith QArith Qcanon Reals.
-From GPV Require Import Base.LinAlg Base.Exec Base.Expr Models.C01_posterior
+From GPV Require Import Base.LinAlg Base.Exec Base.Expr Models.C14_variational Models.C01_posterior
   Models.C04_fantasy Models.C17_constraints Proofs.C17_constraints Models.C07_psd Proofs.C07_psd Proofs.C07_more
-  Proofs.C07_real.
+  Proofs.C07_gramform Base.Psd Proofs.C07_variational Proofs.C07_real.
 Import ListNotations.
 
 (* ---- Gram-type kernels are PSD for ALL inputs, sizes, dimensions and admissible parameters - *)
@@ -64,15 +64,53 @@ Theorem c07_scale_psd :
 Proof. intros K O. exact (@k_scale_psd K O). Qed.
 Print Assumptions c07_scale_psd.
 
-(* the general Schur product theorem (both factors arbitrary PSD) needs a root of one factor;
-   proved when one factor is F diag(c) F^T, c >= 0 (Linear, Polynomial base, Index, RFF, Cosine,
-   Constant), the other ANY PSD matrix *)
-Theorem c07_product_psd_partial :
+(* every symmetric PSD real matrix is a Gram matrix F F^T, F lower triangular (semi-definite
+   Cholesky factorisation; all n).  This is the root the Schur product theorem needs. *)
+Theorem c07_psd_has_cholesky :
+  forall n (A : @M RF), symmetric n A -> @PSD RF ROrd n A ->
+    exists F : @M RF, meq n n A (gram n F) /\ (forall i k, (i < k)%nat -> F i k = 0%R).
+Proof. exact psd_has_cholesky. Qed.
+Print Assumptions c07_psd_has_cholesky.
+
+Theorem c07_psd_has_gram_form :
+  forall n (A : @M RF), symmetric n A -> @PSD RF ROrd n A -> exists F : @M RF, meq n n A (gram n F).
+Proof. exact psd_has_gram_form. Qed.
+Print Assumptions c07_psd_has_gram_form.
+
+Theorem c07_psd_iff_gram :
+  forall n (A : @M RF), (symmetric n A /\ @PSD RF ROrd n A) <-> exists F : @M RF, meq n n A (gram n F).
+Proof. exact psd_iff_gram. Qed.
+Print Assumptions c07_psd_iff_gram.
+
+(* ProductKernel: the FULL Schur product theorem over R - the entrywise product of ANY two PSD
+   matrices (one of them symmetric, as every covariance matrix is) is PSD, all n.  (Symmetry of one
+   factor cannot be dropped for the quadratic-form definition: A = B = [[0,1],[-1,0]] have x^T A x = 0
+   but A o B = [[0,1],[1,0]] is indefinite.) *)
+Theorem c07_product_psd :
+  forall n (A B : @M RF), symmetric n A -> @PSD RF ROrd n A -> @PSD RF ROrd n B ->
+    @PSD RF ROrd n (k_prod A B).
+Proof. exact hadamard_psd. Qed.
+Print Assumptions c07_product_psd.
+
+(* entrywise powers A^(o p) of a symmetric PSD matrix (PolynomialKernel on top of any kernel) *)
+Theorem c07_hadamard_power_psd :
+  forall n (A : @M RF) p, symmetric n A -> @PSD RF ROrd n A -> @PSD RF ROrd n (hpow p A).
+Proof. exact hpow_psd. Qed.
+Print Assumptions c07_hadamard_power_psd.
+
+(* the same over ANY ordered field (in particular the executable rationals, where no square roots
+   exist) when one factor is given as F diag(c) F^T, c >= 0 (Linear, Polynomial base, Index, RFF,
+   Cosine, Constant), the other ANY PSD matrix.  (Was c07_product_psd_partial.) *)
+Theorem c07_product_psd_wgram_factor :
   forall (K : Fld) (O : OrdFld K) n r F c A B,
     (forall k, (k < r)%nat -> fle f0 (c k)) -> meq n n A (wgram r F c) -> PSD n B ->
     PSD n (k_prod A B).
 Proof. intros K O. exact (@k_prod_wgram_psd K O). Qed.
-Print Assumptions c07_product_psd_partial.
+Print Assumptions c07_product_psd_wgram_factor.
+
+Example ex_schur_product_hyps :
+  symmetric 2 exH /\ @PSD RF ROrd 2 exH /\ symmetric 2 exG /\ @PSD RF ROrd 2 exG.
+Proof. exact ex_schur_product_hyps_holds. Qed.
 
 Theorem c07_inducing_kernel_psd :
   forall (K : Fld) (O : OrdFld K) n m Kxz Kzz_inv, PSD m Kzz_inv -> PSD n (k_inducing m Kxz Kzz_inv).
@@ -86,14 +124,22 @@ Theorem c07_duplicated_inputs_psd :
 Proof. intros K O. exact (@PSD_gather K O). Qed.
 Print Assumptions c07_duplicated_inputs_psd.
 
-(* Kronecker products: one factor of the form F diag(c) F^T (c >= 0), the other ANY PSD matrix
-   (general PSD (x) PSD needs a root of one factor, like the Schur product theorem) *)
-Theorem c07_kronecker_psd_partial :
+(* Kronecker products, FULL statement over R: PSD (x) PSD is PSD for all sizes p, q (one of the
+   two factors symmetric) *)
+Theorem c07_kronecker_psd :
+  forall p q (A B : @M RF), symmetric p A \/ symmetric q B -> @PSD RF ROrd p A -> @PSD RF ROrd q B ->
+    @PSD RF ROrd (p * q) (kprod q A B).
+Proof. exact kprod_psd. Qed.
+Print Assumptions c07_kronecker_psd.
+
+(* over ANY ordered field with one factor of the form F diag(c) F^T (c >= 0), the other ANY PSD
+   matrix.  (Was c07_kronecker_psd_partial.) *)
+Theorem c07_kronecker_psd_wgram_factor :
   forall (K : Fld) (O : OrdFld K) p q r F c A B,
     (forall k, (k < r)%nat -> fle f0 (c k)) -> PSD p A -> meq q q B (wgram r F c) ->
     PSD (p * q) (kprod q A B).
 Proof. intros K O. exact (@kprod_psd_r K O). Qed.
-Print Assumptions c07_kronecker_psd_partial.
+Print Assumptions c07_kronecker_psd_wgram_factor.
 
 (* MultitaskKernel = K_data (x) (B B^T + diag v): PSD for every PSD data kernel, rank, v >= 0 *)
 Theorem c07_multitask_kernel_psd :
@@ -220,6 +266,48 @@ Theorem c07_variational_cov_psd :
     PSD t (msub Kss (gram m At)) -> PSD m Sw -> PSD t (var_cov m Kss At Sw).
 Proof. intros K O. exact (@var_cov_psd K O). Qed.
 Print Assumptions c07_variational_cov_psd.
+
+(* UNWHITENED variational predictive covariance K_xx - K_xz K_zz^-1 (K_zz - S) K_zz^-1 K_zx, on the
+   C14 model's own definition [unwh_cov] with the blocks addressed as run_c14 does (J = the joint prior
+   on [Z; X] with the strategy's jitter): PSD whenever J is symmetric PSD, K_zz invertible (any inverse;
+   with J PSD this is the same as K_zz PD) and S is PSD.  All m, n, any ordered field. *)
+Theorem c07_unwhitened_variational_cov_psd :
+  forall (K : Fld) (O : OrdFld K) m n J Kinv Sq,
+    symmetric (m + n) J -> PSD (m + n) J -> is_inverse m (sub 0 0 J) Kinv -> PSD m Sq ->
+    PSD n (unwh_cov m (sub 0 0 J) (sub 0 m J) (sub m m J) Kinv Sq).
+Proof. intros K O. exact (@unwh_cov_psd K O). Qed.
+Print Assumptions c07_unwhitened_variational_cov_psd.
+
+(* the same on explicit blocks *)
+Theorem c07_unwhitened_variational_cov_psd_blocks :
+  forall (K : Fld) (O : OrdFld K) m n Kzz Kzx Kxz Kxx Kinv Sq,
+    symmetric (m + n) (blk m m Kzz Kzx Kxz Kxx) -> PSD (m + n) (blk m m Kzz Kzx Kxz Kxx) ->
+    is_inverse m Kzz Kinv -> PSD m Sq ->
+    PSD n (unwh_cov m Kzz Kzx Kxx Kinv Sq).
+Proof. intros K O. exact (@unwh_cov_psd_blocks K O). Qed.
+Print Assumptions c07_unwhitened_variational_cov_psd_blocks.
+
+Theorem c07_unwhitened_variance_nonneg :
+  forall (K : Fld) (O : OrdFld K) m n J Kinv Sq i,
+    symmetric (m + n) J -> PSD (m + n) J -> is_inverse m (sub 0 0 J) Kinv -> PSD m Sq -> (i < n)%nat ->
+    fle f0 (unwh_cov m (sub 0 0 J) (sub 0 m J) (sub m m J) Kinv Sq i i).
+Proof. intros K O. exact (@unwh_var_nonneg K O). Qed.
+Print Assumptions c07_unwhitened_variance_nonneg.
+
+Example ex_unwh_cov_hyps :
+  symmetric 2 exJv /\ @PSD RF ROrd 2 exJv /\ is_inverse 1 (sub 0 0 exJv) exKinv /\
+  @PSD RF ROrd 1 exSv /\
+  unwh_cov 1 (sub 0 0 exJv) (sub 0 1 exJv) (sub 1 1 exJv) exKinv exSv 0%nat 0%nat = (7 / 4)%R.
+Proof. exact ex_unwh_cov_hyps_holds. Qed.
+
+(* positive definiteness (Base/Psd.v): PD n A := PSD n A /\ (x <> 0 -> x^T A x <> 0); the Schur complement
+   of a symmetric PD matrix is PD (all sizes, any ordered field) *)
+Theorem c07_schur_complement_pd :
+  forall (K : Fld) (O : OrdFld K) n t J Ainv,
+    symmetric (n + t) J -> PD (n + t) J -> is_inverse n (sub 0 0 J) Ainv ->
+    PD t (msub (sub n n J) (mmul n (sub n 0 J) (mmul n Ainv (mT (sub n 0 J))))).
+Proof. intros K O. exact (@schur_pd K O). Qed.
+Print Assumptions c07_schur_complement_pd.
 
 Example ex_more_data_hyps :
   symmetric 2 exB /\ @PSD RF ROrd 2 exB /\ is_inverse 1 (ex1 2) (ex1 (/ 2)) /\
